@@ -164,7 +164,20 @@ func cmdCheck(args []string) {
 		}
 	}
 	if *writeLedger {
-		cc.saveLedger()
+		// the ledger is the statement "all of this was discharged on the pinned tree": refuse to
+		// write it when a function under contract could not be processed or an obligation failed
+		bad := 0
+		for _, f := range cc.funcs {
+			if f.Status != "verified" && !strings.HasPrefix(f.Status, "trusted") {
+				fmt.Fprintf(os.Stderr, "gvc: not writing the ledger: %s is %s (%s)\n", f.Function, f.Status, trunc(f.Error, 200))
+				bad++
+			}
+		}
+		if bad == 0 || os.Getenv("GVC_LEDGER_FORCE") != "" {
+			cc.saveLedger()
+		} else {
+			defer os.Exit(4)
+		}
 	}
 	status := "ok"
 	if len(cc.viol) > 0 {
